@@ -105,6 +105,15 @@ def stepApiFs (st : ApiState) (toks : List String) : Option (ApiState × String 
     let dstThere := (SMap.find st.ref (fromHex db_)).isSome
     let (st', sp) := refStep { st with fs := fs } (.copy (fromHex sb) (fromHex sk) (fromHex db_) (fromHex dk))
     some (st', showRes r fun h => s!"copied {toHex h}", if dstThere then sp else "-")
+  | ["api.list", b, hasP, pfx, hasD, d] =>
+    -- `ListBucket`: the name is validated, then the ReadDir listing for delimiter '/', the Walk listing otherwise
+    let p := parsePrefix hasP pfx hasD d
+    let r : Res ObjectList :=
+      if !validateBucketName (fromHex b) then .err .NoSuchBucket else
+      match SMap.find st.fs.buckets (fromHex b) with
+      | none => .err .NoSuchBucket
+      | some bk => .ok (if p.hasDelim && p.delim == 47 then FsB.listDir md5 bk p else FsB.listWalk md5 bk p)
+    some (st, showRes r showListing, refListing st (fromHex b) p)
   | _ => none
 
 def stepApi (st : ApiState) (toks : List String) : Option (ApiState × String × String) :=
